@@ -699,8 +699,8 @@ def run_file(inst):
     res = {"violations": [], "inconclusive": [], "counters": {}, "functions": ["jaxley/io/swc.py:read_swc (executed concretely)"]}
     rows = GEOMS[inst["geom"]]
     rng = np.random.default_rng(harness.seed() + 11)
-    def viol(clause, what):
-        res["violations"].append({"signature": {"clause": clause, "geom": inst["geom"]}, "what": f"{inst['geom']}: {what}", "replay": {"inst": inst, "clause": clause}})
+    def viol(clause, what, extra=None):
+        res["violations"].append({"signature": dict({"clause": clause, "geom": inst["geom"]}, **(extra or {})), "what": f"{inst['geom']}: {what}", "replay": {"inst": inst, "clause": clause}})
     with tempfile.NamedTemporaryFile("w", suffix=".swc", delete=False) as f:
         for r in rows:
             f.write(f"{r[0]} {r[1]} {r[2]} {r[3]} {r[4]} {0.3 + 0.2 * r[0]:.3f} {r[5]}\n")
@@ -739,9 +739,20 @@ def run_file(inst):
                 cm = jx.read_swc(fname, ncomp=1, max_branch_len=mbl)
             except Exception as ex:
                 viol(clause, f"read_swc(max_branch_len={mbl}) raises {type(ex).__name__}: {str(ex)[:80]}"); continue
+            # only sections longer than max_branch_len are split: every section that is short enough must come back as it was
+            B1 = sorted(map(float, c1.nodes.groupby("global_branch_index")["length"].sum().to_numpy()))
+            Rm = list(map(float, cm.nodes.groupby("global_branch_index")["length"].sum().to_numpy()))
+            short = [b for b in B1 if b <= mbl + 1e-9]
+            left = list(Rm); missing = []
+            for b in short:
+                hit = [k for k, x in enumerate(left) if abs(x - b) <= 1e-6 * (1 + abs(b))]
+                if hit: left.pop(hit[0])
+                else: missing.append(b)
+            if missing:
+                viol("FILE_needless_split", f"max_branch_len={mbl}: section(s) of traced length {missing} <= max_branch_len were split (branch lengths {B1} -> {sorted(Rm)})")
             Lm = float(cm.nodes["length"].sum())
             if abs(Lm - L1) > 1e-6 * L1:
-                viol(clause, f"max_branch_len={mbl} changes the total length {L1} -> {Lm}")
+                viol(clause, f"max_branch_len={mbl} changes the total length {L1} -> {Lm}", {"max_branch_len": float(mbl)})
             if dense and float(cm.nodes.groupby("global_branch_index")["length"].sum().max()) > mbl + 1e-9:
                 viol(clause, f"max_branch_len={mbl}: a branch is still longer")
         res["counters"]["files_checked"] = 1
